@@ -389,16 +389,21 @@ def main(args: list[str]) -> int:
 
         return 0
 
-    if settings.explain:
-        print(explain(settings))
-
-        return 0
-
     try:
+        if settings.explain:
+            print(explain(settings))
+
+            return 0
+
         errors = run_refurb(settings)
 
     except TypeError as e:
         print(e)
+        return 1
+
+    except ImportError as e:
+        # A module named by `--load` (or a plugin entry point) cannot be imported
+        print(f"refurb: {e}")
         return 1
 
     if formatted_errors := format_errors(errors, settings):
